@@ -39,9 +39,40 @@ def check_C07(tier):
 
 
 def replay(pid, path):
+    """re-run one recorded violation from its replay file (the artifacts of the failing case are inside the file)"""
+    import refine
     p = json.load(open(path))
-    print(json.dumps({k: v for k, v in p.items() if k in ("property", "backend", "case", "result", "signature")}, indent=1))
+    print(json.dumps({k: v for k, v in p.items() if k in ("property", "backend", "case", "result", "signature", "why", "stages", "class")}, indent=1)[:3000])
+    if "backend" in p and p.get("backend") + ".asm" in p and "axcutlin.json" in p:
+        # lock-step case: rebuild the single-case inputs from the recorded artifacts and run the product again
+        be = p["backend"]
+        name, _, a = p["case"].partition("@")
+        work = fresh_dir(WORK, "replay")
+        art = os.path.join(work, "art")
+        os.makedirs(art)
+        open(os.path.join(art, "%s.%s.asm" % (name, be)), "w").write(p[be + ".asm"])
+        json.dump(p["axcutlin.json"], open(os.path.join(art, name + ".axcutlin.json"), "w"))
+        build_harness()
+        sccv("config", art)
+        args = [int(x) for x in a.split(",") if x != ""]
+        env, n = refine.make_inputs(art, os.path.join(work, "tlc"), be, [(name, args)], maxsteps=200000)
+        cfg = json.load(open(env["SCCV_CFG"])); cfg["strict_encode"] = False
+        json.dump(cfg, open(env["SCCV_CFG"], "w"))
+        r = tlc_batch("Refine", "Refine.cfg", os.path.join(work, "tlc"), env, 1, timeout=1200)
+        x = r["results"][0]
+        print("replayed on the recorded artifacts: status=%s tag=%s why=%s steps=%d markers=%d" % (x["status"], x["tag"], x["why"], x["steps"], x["marks"]))
+        code = refine.load_code(art, name, be)["code"]
+        lo = max(0, x["pc"] - 12)
+        for i in range(lo, min(len(code), x["pc"] + 2)):
+            print("%s %5d  %s" % ("=>" if i + 1 == x["pc"] else "  ", i + 1, json.dumps(code[i])[:150]))
+        if x["status"] == "fail":
+            print("VIOLATION property=%s replay=%s" % (pid, path))
+            return 1
+        return 0
+    if p.get("source"):
+        print("---- source ----\n" + p["source"])
     return 0
+
 
 
 def check_C08(tier):
